@@ -232,7 +232,8 @@ class MPS(DNAS):
         :return: the precision-assignement found by the NAS
         :rtype: Dict[str, Dict[str, Any]]
         """
-        mod, _, _ = convert(self.seed, self._input_example, 'export')
+        with self._preserve_state():
+            mod, _, _ = convert(self.seed, self._input_example, 'export')
         return mod
 
     def summary(self) -> Dict[str, Dict[str, Any]]:
